@@ -72,3 +72,14 @@ package xmldsig
 //@        ret0 == (elem.Space == space || exists(k, 0, len(elem.Attr), elem.Attr[k].Space == space))
 //@   loop 0 sig "for _, attr := range elem.Attr" invariant forall(k, 0, rangeindex + 1, elem.Attr[k].Space != space) && space != "" && elem.Space != space
 //@   modifies nothing
+//@
+//@ macro canonChild(t etree.Token) bool = istype(t, *etree.Element) || istype(t, *etree.CharData)
+//@
+//@ func walkAttributes
+//@   property C19
+//@   standalone
+//@   requires elem != nil
+//@   loop 1 sig "for i := 0; i < len(elem.Child);" invariant 0 <= i && forall(k, 0, i, canonChild(elem.Child[k]))
+//@   loop 1 exit @every_child_was_looked_at i >= len(elem.Child)
+//@   on call walkAttributes(t) ret (): assume sameslice(elem.Child, atcall(elem.Child)) && (atcall(forall(k, 0, i + 1, canonChild(elem.Child[k]))) ==> forall(k, 0, i + 1, canonChild(elem.Child[k])))
+//@   ensures @only_elements_and_text_survive_canonicalisation_comments_and_processing_instructions_are_dropped forall(k, 0, len(cur(elem).Child), canonChild(cur(elem).Child[k]))
